@@ -378,6 +378,9 @@ func (e1Engine) Generate(seed uint64, prop, tier string) (json.RawMessage, error
 		if g.Chance(1, 2) {
 			add(e1Step{K: "line", S: s, Data: "JOIN " + g.Pick(e1Chans)})
 		}
+		if g.Chance(1, 3) {
+			add(e1Step{K: "line", S: s, Data: "JOIN " + g.Pick(e1Chans) + "," + g.Pick(e1Chans)})
+		}
 	}
 	if g.Chance(3, 5) {
 		add(e1Step{K: "create"})
@@ -456,11 +459,65 @@ func (e1Engine) Generate(seed uint64, prop, tier string) (json.RawMessage, error
 		add(e1Step{K: "line", S: a, Data: "MODE " + c + " +i"})
 		add(e1Step{K: "line", S: b, Data: "JOIN " + c})
 	}
+	// snippet: several members on one channel, a membership-changing event, then channel and private traffic
+	chatter := func() {
+		if nsess < 3 {
+			return
+		}
+		var m []int
+		for _, s := range g.Perm(nsess) {
+			if s != svc && len(m) < g.Range(2, 4) {
+				m = append(m, s)
+			}
+		}
+		if len(m) < 2 {
+			return
+		}
+		c := g.Pick(e1Chans)
+		lc := c
+		if g.Chance(1, 2) {
+			lc = strings.ToLower(c)
+		}
+		for _, s := range m {
+			add(e1Step{K: "line", S: s, Data: "JOIN " + c})
+		}
+		switch g.Intn(6) {
+		case 0:
+			add(e1Step{K: "line", S: m[0], Data: "KICK " + lc + " {nickb} :bye"})
+		case 1:
+			add(e1Step{K: "line", S: m[len(m)-1], Data: "PART " + lc})
+		case 2:
+			add(e1Step{K: "line", S: m[len(m)-1], Data: "NICK " + g.Pick(e1Nicks)})
+		case 3:
+			add(e1Step{K: "line", S: m[len(m)-1], Data: "QUIT :gone"})
+		case 4:
+			add(e1Step{K: "line", S: m[0], Data: "MODE " + lc + " " + g.Pick([]string{"-n", "+i", "+o {nickb}"})})
+		}
+		for k := 0; k < g.Range(1, 3); k++ {
+			s := m[g.Intn(len(m))]
+			add(e1Step{K: "line", S: s, Data: g.Pick([]string{"PRIVMSG", "PRIVMSG", "NOTICE"}) + " " + lc + " :" + g.Pick(e1Texts)})
+		}
+		if g.Chance(1, 2) {
+			add(e1Step{K: "line", S: m[0], Data: "PRIVMSG {nickb} :psst"})
+		}
+	}
 	for i := 0; i < n; i++ {
 		r := g.Intn(1000)
 		switch {
 		case r < 8:
 			staleInvite()
+		case r >= 500 && r < 540:
+			chatter()
+		case r >= 540 && r < 555:
+			// a services link (re)connects in the middle of the history: netjoin burst over the current state
+			add(e1Step{K: "create"})
+			ls := nsess
+			nsess++
+			add(e1Step{K: "line", S: ls, Data: "PASS services=" + e1SvcPass})
+			add(e1Step{K: "line", S: ls, Data: "SERVER services" + fmt.Sprint(g.Intn(3)) + ".robustirc.net 1 :Services"})
+			if svc < 0 {
+				svc = ls
+			}
 		case r < 40:
 			lostRight()
 		case r < 560:
